@@ -32,7 +32,10 @@ func (handler *CancelableEventHandler[E]) Emit(event E) bool {
 // in ascending order.
 func (handler *CancelableEventHandler[E]) Subscribe(listener CancelableListener[E], priority int) {
 	ml := cancelableListener[E]{listener: listener, priority: priority}
-	handler.listeners = append(handler.listeners, ml)
+	// always append into a fresh array: an emission in progress (a listener may subscribe from inside
+	// it) keeps ranging over the array it started with, which the sort below must not permute
+	n := len(handler.listeners)
+	handler.listeners = append(handler.listeners[:n:n], ml)
 	sort.Sort(handler.listeners)
 }
 
